@@ -321,6 +321,14 @@ pub fn extremal(tier: Tier) -> u64 {
         "4k3/3P4/8/8/8/8/3p4/4K3 w - - 0 1",
         "4k3/3P4/8/8/8/8/3p4/4K3 b - - 0 1",
         "4r1k1/8/8/8/8/8/8/4K1R1 w - - 0 1",
+        // an en-passant marker while the mover is in check by ANOTHER pawn / a knight / a slider (not
+        // reachable by play, accepted by the parser): the capture must not be offered unless it
+        // really ends the check, or a king is captured two plies later
+        "k7/8/8/3pP2p/6K1/8/8/8 w - d6 0 1",
+        "8/8/8/6k1/3Pp2P/8/8/K7 b - d3 0 1",
+        "k7/8/8/3pP3/6K1/4n3/8/8 w - d6 0 1",
+        "k7/8/8/3pP3/6K1/8/8/6r1 w - d6 0 1",
+        "k7/8/8/2KpP3/8/8/8/8 w - d6 0 1",
         // double checks by two sliders in parsed positions (accepted): detection from scratch must keep both
         "k3r3/8/8/8/7b/8/8/3QK3 w - - 0 1",
         "k3q3/8/8/8/7q/8/8/3RK3 w - - 0 1",
